@@ -53,6 +53,11 @@ def gen_write(rng, ids, hostile):
         i = rng.choice([1, 2, 3, 4, 5, 7, 10, 11, 100, -1, 2147483647, -2147483647, 2000000000, -2000000000, 2147483648, 0])
     if i in ids or rng.random() < 0.15:
         kvs = [gen_kv(rng, hostile) for _ in range(rng.randint(1, 4))]
+        if i in ids and rng.random() < 0.12:
+            # re-key an existing row onto a fresh id: the first, a middle or the last row moves elsewhere
+            fresh = [x for x in (6, 8, 9, 12, 50, 99, 101, 1000, -5) if x not in ids]
+            if fresh:
+                kvs.insert(rng.randint(0, len(kvs)), b"step=%d" % rng.choice(fresh))
     else:
         # a complete new row, as step_write produces it
         kvs = [b"name=" + rng.choice([b"env", b"cvs", b"patch", b"kernel", b"end"]), b"exit=" + str(rng.choice([0, 0, 1, -1, 124])).encode(),
